@@ -1873,6 +1873,10 @@ def bipartite_random_regular(l, r, d, seed=None):
                     break
             if failure:
                 return bipartite_random_regular(l, r, d)
+            # random sampling was unlucky: use the free pair just found
+            G.add_edge(A[ea], B[eb])
+            A[i], A[ea] = A[ea], A[i]
+            B[i], B[eb] = B[eb], B[i]
 
     return G
 
